@@ -10,6 +10,11 @@ KV_ASSUME = [
 ]
 
 
+def not_c05(sig):
+    """DB::check() disagreeing is decided by the C05 check (which decodes the pages)"""
+    return sig.get("what") == "check"
+
+
 def mc_kv(tier):
     cfg = "MC_KV.cfg" if tier == "quick" else "MC_KV_thorough.cfg"
     r = tlc_mc("MC_KV", cfg, timeout=3000)
@@ -19,17 +24,32 @@ def mc_kv(tier):
 
 
 def gen_cfg(nkeys, active, fillers, path=(0,), pre=("absent", "kv"), acts=("keep", "put", "del"),
-            ends=("commit", "drop", "reopen"), readback=False, nvals=4):
+            ends=("commit", "drop", "reopen"), readback=False, nvals=4, qkeys=()):
     return dict(NKeys=nkeys, NVals=nvals, Active=list(active), Fillers=set(fillers), Path=list(path),
-                PreKinds=set(pre), Acts=set(acts), Ends=set(ends), ReadBack=readback)
+                PreKinds=set(pre), Acts=set(acts), Ends=set(ends), ReadBack=readback, QKeys=set(qkeys))
 
 
-def spread(n_active, n_fill):
-    """key ids 0..n-1 with the active ones spread evenly between the fillers"""
-    n = n_active + n_fill
-    act = sorted(set(int(round((i + 0.5) * n / n_active - 0.5)) for i in range(n_active)))
-    fill = [k for k in range(n) if k not in act]
-    return n, act, fill
+def spread(n_active, n_fill, n_ghost=0):
+    """key ids 0..n-1 with the active ones spread evenly between the fillers; ghost keys
+    (never present: seek / range probes for absent keys) at both ends and in the middle"""
+    n = n_active + n_fill + n_ghost
+    ghosts = set()
+    if n_ghost >= 1:
+        ghosts.add(0)
+    if n_ghost >= 2:
+        ghosts.add(n - 1)
+    step = 1
+    while len(ghosts) < n_ghost:
+        ghosts.add((n // 2 + step * 3) % n)
+        step += 1
+    rest = [k for k in range(n) if k not in ghosts]
+    m = len(rest)
+    idx = sorted(set(int(round((i + 0.5) * m / n_active - 0.5)) for i in range(n_active))) if n_active else []
+    act = [rest[i] for i in idx]
+    fill = [k for k in rest if k not in act]
+    if n_ghost == 0:
+        return n, act, fill
+    return n, act, fill, sorted(ghosts)
 
 
 def finish_kv(v, tier, seed, mc, gen_stats, tr, rule):
@@ -66,7 +86,7 @@ def run_gens(v, gens, tag):
 
 
 def check_C01(tier, seed):
-    v = Verdict("C01")
+    v = Verdict("C01", out_of_scope=not_c05)
     mc = mc_kv(tier)
     gens = []
     if tier == "quick":
@@ -107,6 +127,87 @@ def check_C01(tier, seed):
                      "behaviour replayed under each profile and every result compared with KVOps!Do; impl->spec: "
                      "seeded random histories recorded and validated by TLC (Trace_KV). distinct_nontrivial = "
                      "generated behaviours + distinct (call, result, profile) triples seen in traces")
+
+
+def check_C07(tier, seed):
+    """read-your-writes: the full read API after every single operation of a write tx"""
+    v = Verdict("C07", out_of_scope=not_c05)
+    mc = mc_kv(tier)
+    gens = []
+    if tier == "quick":
+        n, act, fill = spread(4, 2)
+        gens.append(("rb4", gen_cfg(n, act, fill, readback=True, ends=("commit",)), ["two", "flat"]))
+        n, act, fill = spread(3, 14)
+        gens.append(("rb3f14", gen_cfg(n, act, fill, readback=True, ends=("commit",)), ["three", "two"]))
+        n, act, fill = spread(3, 2)
+        gens.append(("rbmix3", gen_cfg(n, act, fill, readback=True, ends=("drop",), pre=("absent", "kv", "bucket"),
+                                       acts=("keep", "put", "del", "mkb", "delb")), ["two"]))
+        runs = [dict(profile=p, seed=seed * 100 + i, n=5, len=40, nkeys=10, nvals=4, args=["--readback", "1"])
+                for i, p in enumerate(["two", "three", "overflow", "hibytes"])]
+    else:
+        n, act, fill = spread(6, 3)
+        gens.append(("rb6", gen_cfg(n, act, fill, readback=True, ends=("commit",)), ["two", "flat", "hibytes"]))
+        n, act, fill = spread(5, 16)
+        gens.append(("rb5f16", gen_cfg(n, act, fill, readback=True, ends=("commit",)), ["three", "two"]))
+        n, act, fill = spread(4, 30)
+        gens.append(("rb4f30", gen_cfg(n, act, fill, readback=True, ends=("commit",)), ["three", "longkey"]))
+        n, act, fill = spread(4, 3)
+        gens.append(("rbmix4", gen_cfg(n, act, fill, readback=True, ends=("drop", "commit"),
+                                       pre=("absent", "kv", "bucket"),
+                                       acts=("keep", "put", "del", "mkb", "delb", "gocb")), ["two", "overflow"]))
+        runs = [dict(profile=p, seed=seed * 1000 + i * 10 + j, n=15, len=60, nkeys=nk, nvals=4,
+                     args=["--readback", "1"])
+                for i, p in enumerate(["two", "three", "overflow", "hibytes", "longkey", "empty"])
+                for j, nk in enumerate([8, 20, 40])]
+    gs = run_gens(v, gens, "C07")
+    tr = kv.kv_trace_runs(v, runs, "C07")
+    return finish_kv(v, tier, seed, mc, gs, tr,
+                     "spec->impl: Gen_KV with ReadBack: after every operation of the write transaction the scan, "
+                     "counter, seek and get of every active key, four ranges, buckets(), kv_pairs() and the "
+                     "after-the-end probe are issued and compared with KVOps!Do on the transaction's view, over every "
+                     "function Active -> PreKinds x Acts and tree-shape profiles; impl->spec: random histories with "
+                     "read-back after every mutation, validated by TLC")
+
+
+def check_C08(tier, seed):
+    """cursors, seeks, ranges: every seek key and every pair of bounds over the universe"""
+    v = Verdict("C08", out_of_scope=not_c05)
+    mc = mc_kv(tier)
+    gens = []
+    if tier == "quick":
+        n, act, fill, gh = spread(3, 0, 3)      # empty .. single-leaf buckets
+        gens.append(("q3", gen_cfg(n, act, fill, qkeys=range(n), ends=("commit",)), ["flat", "empty"]))
+        n, act, fill, gh = spread(3, 4, 3)      # two levels, 2 entries per leaf
+        gens.append(("q3f4", gen_cfg(n, act, fill, qkeys=range(n), ends=("commit",)), ["two", "hibytes"]))
+        n, act, fill, gh = spread(2, 14, 3)     # three levels
+        gens.append(("q2f14", gen_cfg(n, act, fill, qkeys=range(n), ends=("commit",)), ["three"]))
+        n, act, fill, gh = spread(3, 2, 2)
+        gens.append(("qmix", gen_cfg(n, act, fill, qkeys=range(n), ends=("commit",), pre=("kv", "bucket"),
+                                     acts=("keep", "del", "delb")), ["two"]))
+        runs = [dict(profile=p, seed=seed * 100 + i, n=5, len=50, nkeys=14, nvals=3, args=["--readback", "1"])
+                for i, p in enumerate(["two", "three", "hibytes"])]
+    else:
+        n, act, fill, gh = spread(4, 0, 4)
+        gens.append(("q4", gen_cfg(n, act, fill, qkeys=range(n), ends=("commit", "reopen")), ["flat", "empty", "longkey"]))
+        n, act, fill, gh = spread(4, 6, 4)
+        gens.append(("q4f6", gen_cfg(n, act, fill, qkeys=range(n), ends=("commit",)), ["two", "hibytes", "overflow"]))
+        n, act, fill, gh = spread(3, 16, 3)
+        gens.append(("q3f16", gen_cfg(n, act, fill, qkeys=range(n), ends=("commit",)), ["three", "two"]))
+        n, act, fill, gh = spread(3, 4, 3)
+        gens.append(("qmix", gen_cfg(n, act, fill, qkeys=range(n), ends=("commit",), pre=("absent", "kv", "bucket"),
+                                     acts=("keep", "put", "del", "delb", "mkb")), ["two", "three"]))
+        runs = [dict(profile=p, seed=seed * 1000 + i * 10 + j, n=15, len=60, nkeys=nk, nvals=3,
+                     args=["--readback", "1"])
+                for i, p in enumerate(["two", "three", "hibytes", "longkey", "empty", "flat"])
+                for j, nk in enumerate([6, 14, 40])]
+    gs = run_gens(v, gens, "C08")
+    tr = kv.kv_trace_runs(v, runs, "C08")
+    return finish_kv(v, tier, seed, mc, gs, tr,
+                     "spec->impl: Gen_KV with QKeys: for every function Active -> PreKinds x Acts, mid-transaction and "
+                     "after commit: seek and same-cursor re-seek of every universe key (present, absent, below min, "
+                     "above max, on leaf/branch boundaries by profile), every (bound kind)^2 x (key)^2 range incl. equal "
+                     "and reversed, to_buckets / to_kv_pairs, next() x3 after exhaustion; expected results from "
+                     "KVOps!Do (SeekResults allows either neighbour for an absent key); impl->spec: random traces")
 
 
 def replay(prop, path):
